@@ -44,7 +44,8 @@ Oracle (checked at every choice point, i.e. whenever the driver is quiescent, an
   downlink:*  (safelink confirmed) non-null packets out of RadioDriver.receive_packet are the peer's
               downlink packets, once each, in order; the peer never moves on while one is missing.
   linkerr:*   link_error_callback fires exactly when the run of consecutive unacknowledged main-loop
-              transmissions reaches N (restarting at every ack), once; such states are terminal.
+              transmissions reaches N (restarting at every ack), once per such run; a history ends after the second
+              reported run, or one transmission after a reported run goes on.
   safelink:*  _has_safelink and (not link.needs_resending) hold iff a probe returned exactly ff 05 01.
   hdr:*       safelink on: header bits 3/2 of each frame = thread's (_curr_up, _curr_down) and the rest of
               the frame is the packet in hand; safelink off: the frame is the packet verbatim.
@@ -90,6 +91,9 @@ T_NAMES = {T_LOST: 'uplink lost', T_ACK: 'delivered+acked (null ack / resent pay
            T_KLOST_DATA: 'delivered, ack lost (new downlink data)',
            T_KLOST_EMPTY: 'delivered, ack lost (zero-length ack)'}
 A_NAMES = {A_NONE: 'app idle', A_SUBMIT: 'app submits next packet'}
+
+
+MAX_OUTAGES = 2
 
 
 class _Stop(BaseException):
@@ -267,6 +271,7 @@ class _ScriptRadio:
         self.frames = []
         self.peer_sl = False
         self.down = 1
+        self.thread = None
 
     def send_packet(self, data):
         data = tuple(data)
@@ -278,7 +283,16 @@ class _ScriptRadio:
                 return _Ack(True, (0xff, 0x05, 0x01))
             return _Ack(False)
         self.frames.append(data)
-        if len(self.frames) > self.n_main:
+        if len(self.frames) == self.n_main and self.thread is not None:
+            # pause(): the driver stops its thread the way RadioDriver does (stop() = flag + join; the join is a no-op here
+            # because the loop runs on the calling thread), so whatever the loop does when it is asked to stop happens
+            try:
+                self.thread.join = lambda *a, **k: None
+                self.thread.stop()
+            except Exception:  # noqa
+                if hasattr(self.thread, '_sp'):
+                    self.thread._sp = True
+        if len(self.frames) > self.n_main + 2:
             raise _Stop()
         if self.peer_sl:
             b2 = (data[0] >> 2) & 1
@@ -306,6 +320,7 @@ def part_restart(_):
                 for run_no, echo_at in enumerate((first, second, third)):
                     radio = _ScriptRadio(echo_at, 4)
                     t = rd._RadioDriverThread(radio, link.in_queue, link.out_queue, None, errs.append, link, None)
+                    radio.thread = t
                     try:
                         t.run()
                     except _Stop:
@@ -361,7 +376,7 @@ class _World:
         self.rx = 0                 # downlink data packets out of receive_packet
         self.nulls_rx = 0
         self.run_unacked = 0
-        self.hit = False            # run of unacknowledged transmissions reached N
+        self.outages = 0            # times a run of unacknowledged transmissions reached exactly N
         self.errs = []
         self.echoed = False
         self.probes = 0
@@ -419,7 +434,7 @@ class _World:
         track = self.echoed
         mon = (self.sub & 3, self.acc & 3 if track else 0, self.sub - self.acc if track else 0,
                self.dl_sent & 3, self.rx & 3 if track else 0, self.dl_sent - self.rx if track else 0,
-               self.run_unacked, self.hit, len(self.errs), self.echoed,
+               self.run_unacked, self.outages, len(self.errs), self.echoed,
                self.main, self.expect, 0 if self.main else self.probes, self.prequeued)
         st = (kind, tuple(options), tuple(sorted((k, _canon(v)) for k, v in attrs.items())),
               tuple(sorted((k, _canon(v)) for k, v in loc.items())), peer, mon)
@@ -466,19 +481,28 @@ class _World:
             if bool(self.link.needs_resending) != (not self.echoed):
                 self.bad('safelink:needs_resending', 'link.needs_resending=%r with safelink %s'
                          % (self.link.needs_resending, 'confirmed' if self.echoed else 'not confirmed'))
-        if self.hit and not self.errs:
-            self.bad('linkerr:missing', '%d consecutive unacknowledged transmissions (limit %d) and no link error '
-                     'was reported' % (self.run_unacked, self.N))
+        if self.outages > len(self.errs):
+            self.bad('linkerr:missing' + (':outage_%d_after_acknowledgement' % self.outages if self.outages > 1 else ''),
+                     '%d consecutive unacknowledged transmissions (limit %d, outage number %d on this link) and no link '
+                     'error was reported for them' % (self.run_unacked, self.N, self.outages))
 
     def on_link_error(self, msg):
         self.errs.append(msg)
         self.events.append('link_error')
         self.log('   link_error_callback(%r)' % (msg,))
-        if not self.hit:
+        if self.run_unacked < self.N:
             self.bad('linkerr:spurious', 'link error %r reported after %d consecutive unacknowledged transmissions, '
                      'limit is %d' % (msg, self.run_unacked, self.N))
-        elif len(self.errs) > 1:
-            self.bad('linkerr:repeated', 'link error reported %d times' % len(self.errs))
+        elif len(self.errs) > self.outages:
+            self.bad('linkerr:repeated', 'link error reported %d times for %d run(s) of %d unacknowledged transmissions '
+                     '(current run: %d)' % (len(self.errs), self.outages, self.N, self.run_unacked))
+
+    def history_over(self):
+        """The explored history ends once outage number MAX_OUTAGES has been reported, or an outage goes on for a
+        transmission after it was reported (nothing is demanded of a failed link except that it is reported once)."""
+        if len(self.errs) < self.outages:
+            return False
+        return self.outages >= MAX_OUTAGES or (self.outages > 0 and self.run_unacked > self.N)
 
     def on_stats(self, d):
         self.stats_cb += 1
@@ -487,7 +511,7 @@ class _World:
     def transmit(self, frame):
         is_req = len(frame) == 3 and (frame[0] & 0xf3) == 0xf3 and frame[1] == 0x05
         self.checkpoint(main=not is_req)
-        if self.hit and self.errs:
+        if self.history_over():
             self.pending = ('end', ())
             self.state = self.capture('end', ())
             raise _Stop()
@@ -538,8 +562,8 @@ class _World:
         else:
             self.run_unacked += 1
             self.events.append('lost' if c == T_LOST else 'ack_lost')
-            if self.run_unacked >= self.N:
-                self.hit = True
+            if self.run_unacked == self.N:
+                self.outages += 1
         return acked, payload
 
     def peer_receive(self, frame, b3, b2, advance, c):
@@ -655,7 +679,7 @@ class _World:
     # ---- application hand-off = choice point ------------------------------------------------------
     def app_point(self, block, timeout):
         self.checkpoint(main=True)
-        if self.hit and self.errs:
+        if self.history_over():
             self.pending = ('end', ())
             self.state = self.capture('end', ())
             raise _Stop()
